@@ -59,6 +59,8 @@ class ChunkParser:
             else:
                 # Ignore chunk extensions if any
                 self.size = int(line.split(b';', 1)[0].strip(), 16)
+                if self.size < 0:
+                    raise ValueError('Invalid chunk size %r' % line)
                 self.state = chunkParserStates.WAITING_FOR_DATA
         elif self.state == chunkParserStates.WAITING_FOR_DATA:
             assert self.size is not None
